@@ -91,6 +91,8 @@ SPREADS = [  # (parent selection context, fragment type condition, body) — eve
     ("node", "Node", "id"), ("node", "A", "n"), ("node", "B", "flag"), ("node", "U", "__typename"),
     ("u", "U", "__typename"), ("u", "A", "n"), ("u", "B", "flag"), ("u", "Node", "id"),
     ("q", "Query", "a"), ("nodes", "A", "id n"), ("nodes", "Node", "id"),
+    # abstract in abstract with only PARTLY overlapping possible types (Node = {A, B}, V = {B, C})
+    ("node", "V", "__typename"), ("v", "Node", "id"), ("nodes", "V", "__typename"), ("v", "U", "__typename"), ("u", "V", "__typename"), ("v", "B", "flag"), ("v", "C", "x"),
 ]
 LITERALS = [  # (argument, literal) — every literal kind the spec accepts for the argument's type
     ("i", "1"), ("i", "-2147483648"), ("i", "2147483647"), ("i", "null"), ("ni", "3"), ("li", "[1, 2]"), ("li", "[1, null]"), ("li", "3"), ("li", "[]"), ("li", "null"),
@@ -112,7 +114,7 @@ def legal_doc(kind, k, j):
     """-> (text, variables, operation_name)"""
     if kind == "spread":
         ctx, cond, body = SPREADS[k]
-        inner = ["... on %s { %s }" % (cond, body), "...F", "... { %s }" % ("id" if ctx != "u" and ctx != "q" else ("__typename" if ctx == "u" else "a")), "...F ...F"][j]
+        inner = ["... on %s { %s }" % (cond, body), "...F", "... { %s }" % ("id" if ctx not in ("u", "q", "v") else ("__typename" if ctx in ("u", "v") else "a")), "...F ...F"][j]
         frag = "fragment F on %s { %s }" % (cond, body) if "...F" in inner else ""
         return "{ %s { %s } } %s" % (ctx, inner, frag), {}, None
     if kind == "literal":
